@@ -88,11 +88,14 @@ func checkC18(c *Ctx) {
 		if fn.Name() == "Unmarshal" && len(fn.Params) == 2 && s.WritesThrough(1) {
 			fired["input-write"] = true
 		}
+		if fn.Name() == "Unmarshal" && len(fn.Params) == 2 && s.Retains(0, 1) {
+			fired["retains-input"] = true
+		}
 		if fn.Name() == "Marshal" && len(s.RetFresh) > 0 && !s.RetFresh[0] {
 			fired["not-fresh"] = true
 		}
 	}
-	for _, k := range []string{"global-write", "forbidden", "receiver-write", "input-write", "not-fresh"} {
+	for _, k := range []string{"global-write", "forbidden", "receiver-write", "input-write", "not-fresh", "retains-input"} {
 		r.Check(fired[k], "C18-CTRL", "positive-control/"+k, "checker/testdata/positive/c18", "rule fires on the fixture", "rule does NOT fire on the positive-control fixture: the analysis is broken")
 	}
 }
